@@ -8,24 +8,33 @@
 (* mount again and may be masked too.                                      *)
 (*                                                                         *)
 (* C08: HandlesBounded (a call creates a constant number of procfs         *)
-(*      handles), Terminates, MissingIsENOENT.                             *)
+(*      handles), Terminates, MissingIsENOENT, and -- "report true errors" *)
+(*      -- VisibleToPrivilegedIsFound: an entry that exists on an unmasked *)
+(*      instance is found by a caller who can create one, also as the      *)
+(*      SECOND lookup on a handle (the outcome of a lookup is a function   *)
+(*      of handle, host, privilege and path, not of earlier lookups).      *)
 (***************************************************************************)
 EXTENDS Naturals, Sequences, TLC
 
 CONSTANTS MaxDepth,
-          RetryOnce      \* TRUE: the retry handle does not retry again; FALSE: the pinned snapshot (recursive open())
+          RetryOnce,            \* TRUE: the retry handle does not retry again; FALSE: the pinned snapshot (recursive open())
+          RememberENOENT,       \* FALSE = the code; TRUE: a handle whose retry also gave ENOENT never retries again (seeded change C08c)
+          UnmaskedViaOpenTree   \* FALSE = the code (fsopen first); TRUE: the "unmasked" handle is an open_tree clone of the host mount (seeded change C08d)
 
 VARIABLES priv, hostopt, ctor, pathkind,     \* the case
           stack,                              \* frames of nested open() calls: each [masked]
-          nhandles, res, done
+          nhandles, res, done,
+          nextkind,                           \* path kind of a second lookup on the same handle ("none": no second lookup)
+          useless                             \* the handle's memory (only with RememberENOENT)
 
-vars == <<priv, hostopt, ctor, pathkind, stack, nhandles, res, done>>
+vars == <<priv, hostopt, ctor, pathkind, stack, nhandles, res, done, nextkind, useless>>
 
 HostOpts == {"default", "hidepid1", "hidepid2", "ptraceable", "subsetpid"}
 \* what a freshly created handle looks like
 PrivateInstance(unmasked) == [masked |-> ~unmasked]                \* fsopen: subset=pid unless unmasked
 HostMasked == (hostopt = "subsetpid") \/ (hostopt \in {"hidepid1", "hidepid2", "ptraceable"} /\ ~priv)
-NewHandle(unmasked) == IF priv THEN PrivateInstance(unmasked) ELSE [masked |-> HostMasked]
+NewHandle(unmasked) == IF priv THEN (IF unmasked /\ UnmaskedViaOpenTree THEN [masked |-> hostopt = "subsetpid"] ELSE PrivateInstance(unmasked))
+                       ELSE [masked |-> HostMasked]
 FirstHandle == IF ctor = "new" THEN NewHandle(FALSE) ELSE [masked |-> HostMasked]     \* ctor "hostfd": try_from_fd(open("/proc"))
 
 \* does the path exist on a handle?  "missing" never; "masked" only on unmasked instances; "existing" always
@@ -34,21 +43,32 @@ Exists(h) == pathkind = "existing" \/ (pathkind = "maskedpath" /\ ~h.masked)
 Init ==
     /\ priv \in BOOLEAN /\ hostopt \in HostOpts /\ ctor \in {"new", "hostfd"} /\ pathkind \in {"existing", "missing", "maskedpath"}
     /\ stack = <<FirstHandle>> /\ nhandles = 1 /\ res = "none" /\ done = FALSE
+    /\ nextkind \in {"none", "existing", "missing", "maskedpath"} /\ useless = FALSE
 
 Lookup ==
     /\ ~done /\ stack # <<>>
     /\ LET h == stack[Len(stack)] IN
-       IF Exists(h) THEN res' = "ok" /\ done' = TRUE /\ UNCHANGED <<stack, nhandles>>
-       ELSE IF h.masked /\ (~RetryOnce \/ Len(stack) = 1) /\ Len(stack) < MaxDepth THEN
+       IF Exists(h) THEN res' = "ok" /\ done' = TRUE /\ UNCHANGED <<stack, nhandles, useless>>
+       ELSE IF h.masked /\ ~useless /\ (~RetryOnce \/ Len(stack) = 1) /\ Len(stack) < MaxDepth THEN
             \* ENOENT on a masked handle: retry on a new "unmasked" handle
             /\ stack' = Append(stack, NewHandle(TRUE)) /\ nhandles' = nhandles + 1
-            /\ UNCHANGED <<res, done>>
-       ELSE res' = "ENOENT" /\ done' = TRUE /\ UNCHANGED <<stack, nhandles>>
-    /\ UNCHANGED <<priv, hostopt, ctor, pathkind>>
+            /\ UNCHANGED <<res, done, useless>>
+       ELSE /\ res' = "ENOENT" /\ done' = TRUE /\ UNCHANGED <<stack, nhandles>>
+            /\ useless' = (useless \/ (RememberENOENT /\ Len(stack) > 1))
+    /\ UNCHANGED <<priv, hostopt, ctor, pathkind, nextkind>>
 
-Spec == Init /\ [][Lookup]_vars
+\* a second lookup on the same (first) handle
+Again ==
+    /\ done /\ nextkind # "none"
+    /\ pathkind' = nextkind /\ nextkind' = "none"
+    /\ stack' = <<stack[1]>> /\ nhandles' = 1 /\ res' = "none" /\ done' = FALSE
+    /\ UNCHANGED <<priv, hostopt, ctor, useless>>
+
+Spec == Init /\ [][Lookup \/ Again]_vars
 
 HandlesBounded == nhandles <= 2
 MissingIsENOENT == (done /\ pathkind = "missing") => res = "ENOENT"
 ExistingIsFound == (done /\ pathkind = "existing") => res = "ok"
+\* a privileged caller can always build an unmasked private instance, so what exists there is found
+VisibleToPrivilegedIsFound == (done /\ pathkind = "maskedpath" /\ priv) => res = "ok"
 =============================================================================
